@@ -29,7 +29,15 @@
 //! The history then continues on the SAME runtime: after a warm restart, a cold restart or
 //! `clear_fault()` a second (and for half of the points a third) fault of a kind taken from a
 //! reduced grid is injected and the whole oracle is applied again - a fault after a recovery
-//! must latch, report itself and force the outputs exactly like the first one.
+//! must latch, report itself and force the outputs exactly like the first one. A fourth route
+//! is "no recovery": `watchdog_timeout()` / `simulation_fault()` (optionally after a policy
+//! switch) hit the resource while it is still faulted and must force the safe state again.
+//! Tasks are periodic or SINGLE-triggered; FUNCTION_BLOCK instances can be bound to tasks
+//! (`PROGRAM I0 WITH T0 : P0 (tb7 WITH T1)`), also to tasks without any program.
+//!
+//! Search `runner`: the same through `ResourceRunner::spawn` / `spawn_with_shared` (watchdog
+//! overrun, runtime error, scripted simulation fault); every driver call samples
+//! `ResourceControl::state()` / `last_error()`: no driver call may see the fault reported.
 
 use std::collections::BTreeSet;
 use std::sync::{Arc, Mutex};
@@ -44,7 +52,10 @@ use sha2::{Digest, Sha256};
 use trust_runtime::error::RuntimeError;
 use trust_runtime::harness::TestHarness;
 use trust_runtime::io::{IoAddress, IoDriver, IoInterface, IoSafeState};
-use trust_runtime::scheduler::{Clock, ResourceRunner, ResourceState};
+use trust_runtime::scheduler::{Clock, ResourceRunner, ResourceState, SharedGlobals, StartGate};
+use trust_runtime::simulation::{
+    SimulationConfig, SimulationController, SimulationDisturbance, SimulationDisturbanceKind,
+};
 use trust_runtime::value::{Duration, Value};
 use trust_runtime::watchdog::{FaultPolicy, WatchdogAction, WatchdogPolicy};
 use trust_runtime::{RestartMode, Runtime};
@@ -56,12 +67,14 @@ pub fn info() -> PropertyInfo {
     PropertyInfo {
         id: "C08",
         level: "fault_enumeration",
-        rule: "one case = one fault history on one runtime: the FIRST fault is a fault point (site statement x cycle | driver read/write error x driver x cycle | watchdog_timeout / simulation_fault after c cycles) x failing-delivery driver x fault policy x watchdog action, enumerated exhaustively for each generated program (<= 12 site statements over 1-3 tasks + background programs, nested FUNCTION/FB calls) with its generated safe-state map and 1-3 logging drivers; it is followed by 1-2 further faults on the same runtime (reduced grid over recovery route {warm restart, cold restart, clear_fault} x fault kind x cycle x failing-delivery driver), each checked with the same oracle; non-trivial = the first fault point lies inside a nested call or in a program that is not the first to run in the faulting cycle, or >= 2 drivers are attached, or a safe-state address overlaps a program output; distinct by SHA-256 of (program source, safe map, fault history)",
+        rule: "search `point`: one case = one fault history on one runtime: the FIRST fault is a fault point (site statement x cycle | driver read/write error x driver x cycle | watchdog_timeout / simulation_fault after c cycles) x failing-delivery driver x fault policy x watchdog action, enumerated exhaustively for each generated program (<= 12 site statements in programs + 0-3 task-bound FUNCTION_BLOCK instances, over 1-3 periodic or SINGLE-triggered tasks + background programs, nested FUNCTION/FB calls) with its generated safe-state map and 1-3 logging drivers; it is followed by 1-2 further faults on the same runtime (reduced grid over route {warm restart, cold restart, clear_fault, NO recovery} x fault kind x cycle x failing-delivery driver x fault-policy / watchdog-action switch x second armed site), each checked with the same oracle. search `runner`: proptest over (configuration, watchdog overrun | runtime error | scripted simulation fault, spawn | spawn_with_shared, policies) through the scheduler thread, the drivers sampling ResourceControl::state()/last_error() at every call. non-trivial = the first fault point lies inside a nested call, in a task-bound FB, in a task that also runs FB instances, or in a program that is not the first to run in the faulting cycle, or >= 2 drivers are attached, or a safe-state address overlaps a program output; distinct by SHA-256 of (program source, safe map, fault history)",
         assumptions: &[
             "an I/O driver 'with policy fault' is one whose read_inputs/write_outputs returns Err (io/modbus.rs handle_error: on_error=fault returns RuntimeError::IoDriver, warn/ignore return Ok); the logging drivers model exactly that",
             "'delivered to every driver' = write_outputs was invoked on the driver with an image holding the safe values, whether or not that driver then reports an error",
             "safe-state maps are well-typed per address size (what config.rs parse_io_value produces), use flat %Q addresses only and do not contain two entries for the same bits",
             "watchdog_timeout() and simulation_fault() are injected between cycles, the way scheduler.rs / simulation.rs call them",
+            "through the scheduler 'the fault is reported' = ResourceState::Faulted / last_error() become visible through ResourceHandle/ResourceControl; no driver call may observe either",
+            "a fault event that hits a resource which is still faulted must force the safe state like any other fault when its decision says so (the property's safe-state sentence is not limited to the first fault); whether it replaces last_fault() is not asserted",
             "Runtime::clear_fault() is not named by the property: it is used only as a further route to a later fault (nothing is asserted about clear_fault itself; if it leaves the resource faulted the history ends without a verdict)",
         ],
         workers_quick: 8,
@@ -95,6 +108,10 @@ enum Form {
     Fn2,
     Fb1,
     Fb2,
+    /// the body of a FUNCTION_BLOCK instance that is associated with a task (`inst WITH T`)
+    TaskFb,
+    /// the same, the division sits in a FUNCTION called from that body
+    TaskFbFn,
 }
 
 impl Form {
@@ -111,12 +128,14 @@ impl Form {
             Form::Fn2 => "function_in_function",
             Form::Fb1 => "fb",
             Form::Fb2 => "fb_in_fb",
+            Form::TaskFb => "task_bound_fb",
+            Form::TaskFbFn => "function_in_task_bound_fb",
         }
     }
     /// Call nesting of the statement that actually faults (0 = program body).
     fn depth(self) -> u8 {
         match self {
-            Form::Fn1 | Form::Fb1 => 1,
+            Form::Fn1 | Form::Fb1 | Form::TaskFbFn => 1,
             Form::Fn2 | Form::Fb2 => 2,
             _ => 0,
         }
@@ -126,7 +145,10 @@ impl Form {
 #[derive(Clone, Debug)]
 struct Site {
     form: Form,
+    /// program that owns the statement (for a task-bound FB: that declares the instance)
     prog: usize,
+    /// task that executes the statement (None = background program)
+    task: Option<usize>,
     /// name of the VAR_GLOBAL that controls the fault (`d3` / `i3`)
     ctl: String,
     /// value that makes the statement fault
@@ -163,6 +185,10 @@ struct Model {
     outputs: Vec<OutVar>,
     safe: Vec<SafeEntry>,
     ndrivers: usize,
+    /// BOOL globals that trigger the SINGLE (event) tasks; the harness toggles them
+    triggers: Vec<String>,
+    /// per task: is it a SINGLE (event) task
+    event_task: Vec<bool>,
 }
 
 fn addr_text(bit0: u32, bits: u32) -> String {
@@ -190,13 +216,11 @@ fn generate(tape: &Tape) -> Model {
     let nsites = 1 + r.pick(12);
 
     // tasks: interval 10/20/30 ms, priorities a permutation-ish pick (ties allowed)
-    let mut task_decl = String::new();
-    for t in 0..ntasks {
+    let mut task_params: Vec<(u32, usize)> = Vec::new();
+    for _ in 0..ntasks {
         let interval = [10, 20, 30][r.weighted(&[5, 3, 2])];
         let prio = 1 + r.pick(3);
-        task_decl.push_str(&format!(
-            "TASK T{t} (INTERVAL := T#{interval}ms, PRIORITY := {prio});\n"
-        ));
+        task_params.push((interval, prio));
     }
     // programs -> task (index ntasks = background)
     let mut prog_task = Vec::new();
@@ -354,6 +378,7 @@ fn generate(tape: &Tape) -> Model {
                 prog_var[prog].push_str(&format!("    inst{k} : FB1;\n"));
                 format!("inst{k}(d := {ctl});\n{c} := {c} + inst{k}.o;\n")
             }
+            Form::TaskFb | Form::TaskFbFn => unreachable!("task-bound FB sites are added after the program bodies"),
             Form::Fb2 => {
                 uses[2] = true;
                 uses[3] = true;
@@ -365,6 +390,7 @@ fn generate(tape: &Tape) -> Model {
         sites.push(Site {
             form,
             prog,
+            task: prog_task[prog],
             ctl,
             fault_value,
             counter,
@@ -496,6 +522,59 @@ fn generate(tape: &Tape) -> Model {
         });
     }
 
+    // ---- read LAST, so that tapes recorded before these features keep their meaning ----
+    // task-bound FUNCTION_BLOCK instances (`PROGRAM I0 WITH T0 : P0 (tb12 WITH T1);`): each
+    // is one more site; its task is any task (the owner's task, another one, or a task that
+    // has no program at all = an FB-only task). A task runs its programs first, then its
+    // FB instances.
+    let nextra = r.weighted(&[2, 3, 2, 1]);
+    let mut task_fb_types = String::new();
+    let mut prog_assoc: Vec<Vec<String>> = vec![Vec::new(); nprogs];
+    for _ in 0..nextra {
+        let k = sites.len();
+        let prog = r.pick(nprogs);
+        let task = r.pick(ntasks);
+        let in_function = r.chance(1, 3);
+        let normal = [1, -1, 7, 2_147_483_647][r.pick(4)];
+        globals.push_str(&format!("    n{k} : DINT := 0;\n    d{k} : DINT := {normal};\n"));
+        let body = if in_function {
+            uses[0] = true;
+            format!("n{k} := n{k} + F1(d{k});\n")
+        } else {
+            format!("n{k} := n{k} + DINT#1 + DINT#0 / d{k};\n")
+        };
+        task_fb_types.push_str(&format!(
+            "FUNCTION_BLOCK TB{k}\nVAR_EXTERNAL\n    n{k} : DINT;\n    d{k} : DINT;\nEND_VAR\n{body}END_FUNCTION_BLOCK\n\n"
+        ));
+        prog_var[prog].push_str(&format!("    tb{k} : TB{k};\n"));
+        prog_assoc[prog].push(format!("tb{k} WITH T{task}"));
+        sites.push(Site {
+            form: if in_function { Form::TaskFbFn } else { Form::TaskFb },
+            prog,
+            task: Some(task),
+            ctl: format!("d{k}"),
+            fault_value: 0,
+            counter: format!("n{k}"),
+        });
+    }
+    // SINGLE (event) tasks: a quarter of the tasks are triggered by the rising edge of a BOOL
+    // global instead of an interval; the harness toggles the trigger before every cycle
+    let mut triggers: Vec<String> = Vec::new();
+    let mut event_task = vec![false; ntasks];
+    let mut task_decl = String::new();
+    for (t, (interval, prio)) in task_params.iter().enumerate() {
+        if !r.chance(3, 4) {
+            event_task[t] = true;
+            globals.push_str(&format!("    trig{t} : BOOL := FALSE;\n"));
+            triggers.push(format!("trig{t}"));
+            task_decl.push_str(&format!("TASK T{t} (SINGLE := trig{t}, PRIORITY := {prio});\n"));
+        } else {
+            task_decl.push_str(&format!(
+                "TASK T{t} (INTERVAL := T#{interval}ms, PRIORITY := {prio});\n"
+            ));
+        }
+    }
+
     // source text
     let mut src = String::from("CONFIGURATION Conf\nVAR_GLOBAL\n");
     src.push_str(&globals);
@@ -505,9 +584,14 @@ fn generate(tape: &Tape) -> Model {
     src.push_str("END_VAR\n");
     src.push_str(&task_decl);
     for (p, t) in prog_task.iter().enumerate() {
+        let assoc = if prog_assoc[p].is_empty() {
+            String::new()
+        } else {
+            format!(" ({})", prog_assoc[p].join(", "))
+        };
         match t {
-            Some(t) => src.push_str(&format!("PROGRAM I{p} WITH T{t} : P{p};\n")),
-            None => src.push_str(&format!("PROGRAM I{p} : P{p};\n")),
+            Some(t) => src.push_str(&format!("PROGRAM I{p} WITH T{t} : P{p}{assoc};\n")),
+            None => src.push_str(&format!("PROGRAM I{p} : P{p}{assoc};\n")),
         }
     }
     src.push_str("END_CONFIGURATION\n\n");
@@ -520,6 +604,7 @@ fn generate(tape: &Tape) -> Model {
     if uses[2] {
         src.push_str("FUNCTION_BLOCK FB1\nVAR_INPUT d : DINT; END_VAR\nVAR_OUTPUT o : DINT; END_VAR\no := DINT#1 + DINT#0 / d;\nEND_FUNCTION_BLOCK\n\n");
     }
+    src.push_str(&task_fb_types);
     if uses[3] {
         src.push_str("FUNCTION_BLOCK FB2\nVAR_INPUT d : DINT; END_VAR\nVAR_OUTPUT o : DINT; END_VAR\nVAR inner : FB1; END_VAR\ninner(d := d);\no := inner.o;\nEND_FUNCTION_BLOCK\n\n");
     }
@@ -559,6 +644,8 @@ fn generate(tape: &Tape) -> Model {
         outputs,
         safe,
         ndrivers,
+        triggers,
+        event_task,
     }
 }
 
@@ -610,6 +697,9 @@ pub enum Via {
     RestartCold,
     /// `Runtime::clear_fault()` - not named by the property; only a route to another fault
     ClearFault,
+    /// no recovery at all: a further fault event that needs no cycle (`watchdog_timeout()`,
+    /// `simulation_fault()`) hits the resource while it is still faulted
+    Stay,
 }
 
 #[derive(Clone, Debug, PartialEq, Eq, Serialize, Deserialize)]
@@ -619,6 +709,16 @@ pub struct Next {
     /// 1..=3: the fault cause is made present after `cycle - 1` clean cycles
     pub cycle: u8,
     pub deliver_fail: Option<u8>,
+    /// `set_fault_policy` before this fault (None = unchanged)
+    #[serde(default)]
+    pub set_policy: Option<Pol>,
+    /// `set_watchdog_policy` (action) before this fault (None = unchanged)
+    #[serde(default)]
+    pub set_watchdog: Option<Pol>,
+    /// with `Kind::Site`: a second site that gets its faulting value at the same time (e.g. a
+    /// program statement AND the task-bound FB of the same task); the first to run faults
+    #[serde(default)]
+    pub also_site: Option<u8>,
 }
 
 #[derive(Clone, Debug, Serialize, Deserialize)]
@@ -650,10 +750,25 @@ enum Event {
     Write { driver: usize, payload: Vec<u8> },
 }
 
+type Observer = Box<dyn Fn() -> (ResourceState, Option<RuntimeError>) + Send>;
+
 struct Shared {
     events: Vec<Event>,
     read_mode: Vec<Mode>,
     write_mode: Vec<Mode>,
+    /// runner search: what an outside observer of the resource thread sees right now
+    observer: Option<Observer>,
+    /// (event index, state, last_error) sampled at each driver call while `observer` is set
+    seen: Vec<(usize, ResourceState, Option<RuntimeError>)>,
+}
+
+impl Shared {
+    fn observe(&mut self) {
+        if let Some(obs) = &self.observer {
+            let (state, err) = obs();
+            self.seen.push((self.events.len() - 1, state, err));
+        }
+    }
 }
 
 struct LogDriver {
@@ -676,6 +791,7 @@ impl IoDriver for LogDriver {
     fn read_inputs(&mut self, _inputs: &mut [u8]) -> Result<(), RuntimeError> {
         let mut s = self.shared.lock().unwrap();
         s.events.push(Event::Read { driver: self.id });
+        s.observe();
         if take_mode(&mut s.read_mode[self.id]) {
             return Err(RuntimeError::IoDriver(
                 format!("driver {} read failed", self.id).into(),
@@ -690,6 +806,7 @@ impl IoDriver for LogDriver {
             driver: self.id,
             payload: outputs.to_vec(),
         });
+        s.observe();
         if take_mode(&mut s.write_mode[self.id]) {
             return Err(RuntimeError::IoDriver(
                 format!("driver {} write failed", self.id).into(),
@@ -782,9 +899,14 @@ fn dry_run(model: &Model) -> Result<Vec<Vec<bool>>, String> {
     let mut h = TestHarness::from_source(&model.source)
         .map_err(|e| format!("generated program does not compile: {e:?}"))?;
     let mut out = Vec::new();
+    let mut trig = false;
     for c in 1..=FAULT_CYCLES + LATER_CYCLES as u8 + 1 {
         let before = counters(h.runtime(), model);
         h.advance_time(Duration::from_millis(STEP_MS));
+        trig = !trig;
+        for t in &model.triggers {
+            h.runtime_mut().storage_mut().set_global(t.as_str(), Value::Bool(trig));
+        }
         if let Err(e) = h.runtime_mut().execute_cycle() {
             return Err(format!("fault-free run faults in cycle {c}: {e:?}"));
         }
@@ -850,19 +972,24 @@ fn enumerate_points(model: &Model, runs: &[Vec<bool>]) -> Vec<Point> {
 fn continuation(model: &Model, c: usize) -> Next {
     let nd = model.ndrivers;
     let ns = model.sites.len();
-    let kind = match c % 5 {
-        0 => Kind::Site { site: ((c / 5).wrapping_mul(7).wrapping_add(c / 15) % ns) as u8 },
+    let via = match (c / 5) % 4 {
+        0 => Via::RestartWarm,
+        1 => Via::RestartCold,
+        2 => Via::ClearFault,
+        _ => Via::Stay,
+    };
+    let mut kind = match c % 5 {
+        0 => Kind::Site { site: ((c / 5).wrapping_mul(7).wrapping_add(c / 20) % ns) as u8 },
         1 => Kind::Read { driver: ((c / 5) % nd) as u8, dead: (c / 10) % 2 == 1 },
         2 => Kind::Write { driver: ((c / 5) % nd) as u8, dead: (c / 10) % 2 == 1 },
         3 => Kind::Watchdog,
         _ => Kind::Sim,
     };
-    let via = match (c / 5) % 3 {
-        0 => Via::RestartWarm,
-        1 => Via::RestartCold,
-        _ => Via::ClearFault,
-    };
-    let cycle = 1 + ((c / 15) % 3) as u8;
+    if via == Via::Stay && !matches!(kind, Kind::Watchdog | Kind::Sim) {
+        // a resource that stays faulted refuses cycles: only events that need no cycle
+        kind = if c % 2 == 0 { Kind::Watchdog } else { Kind::Sim };
+    }
+    let cycle = 1 + ((c / 20) % 3) as u8;
     // a failing delivery driver only where the next write_outputs of that driver can be the
     // safe delivery or the publish of the faulting cycle (either way it is a fault)
     let deliver_fail = match kind {
@@ -870,11 +997,39 @@ fn continuation(model: &Model, c: usize) -> Next {
         _ if (c / 3) % 3 == 0 => Some(((c / 9) % nd) as u8),
         _ => None,
     };
+    // policy switches between the faults (most often when the resource stays faulted: that
+    // is where a first fault under `halt` has left the outputs untouched)
+    let set_policy = match (c / 7) % (if via == Via::Stay { 2 } else { 4 }) {
+        1 => Some(if (c / 14) % 3 == 0 { Pol::Halt } else { Pol::SafeHalt }),
+        _ => None,
+    };
+    let set_watchdog = match (c / 11) % 4 {
+        1 => Some(if (c / 22) % 2 == 0 { Pol::Halt } else { Pol::SafeHalt }),
+        _ => None,
+    };
+    // "in both": a second site armed together with the first one; prefer a task-bound FB of
+    // the same task when the first is a program statement (and the other way round)
+    let also_site = match &kind {
+        Kind::Site { site } if ns >= 2 && (c / 4) % 2 == 0 => {
+            let me = &model.sites[*site as usize];
+            let me_bound = matches!(me.form, Form::TaskFb | Form::TaskFbFn);
+            let partner = model.sites.iter().position(|o| {
+                o.task == me.task
+                    && me.task.is_some()
+                    && matches!(o.form, Form::TaskFb | Form::TaskFbFn) != me_bound
+            });
+            Some(partner.unwrap_or((*site as usize + 1 + c / 8) % ns) as u8).filter(|a| a != site)
+        }
+        _ => None,
+    };
     Next {
         via,
         kind,
         cycle,
         deliver_fail,
+        set_policy,
+        set_watchdog,
+        also_site,
     }
 }
 
@@ -903,6 +1058,10 @@ struct Session<'a> {
     model: &'a Model,
     nd: usize,
     policy: Pol,
+    /// level the event-task triggers were given in the last live cycle
+    trig: bool,
+    /// sites armed in addition to the fault kind's own site (`Next::also_site`)
+    also_armed: Vec<usize>,
 }
 
 fn kind_fits(kind: &Kind, deliver_fail: Option<u8>, cycle: u8, model: &Model) -> bool {
@@ -936,6 +1095,20 @@ fn error_label(e: &RuntimeError) -> String {
 }
 
 impl Session<'_> {
+    /// One cycle request on a resource that is expected to run: time +10 ms, the triggers of
+    /// the SINGLE tasks toggle (an event task is due in every second cycle), execute_cycle.
+    fn live_cycle(&mut self) -> Result<(), RuntimeError> {
+        self.h.advance_time(Duration::from_millis(STEP_MS));
+        self.trig = !self.trig;
+        for t in &self.model.triggers {
+            self.h
+                .runtime_mut()
+                .storage_mut()
+                .set_global(t.as_str(), Value::Bool(self.trig));
+        }
+        self.h.runtime_mut().execute_cycle()
+    }
+
     /// Make the fault cause of `kind` present (and the failing delivery driver, if any).
     fn arm(&mut self, kind: &Kind, deliver_fail: Option<u8>) {
         match kind {
@@ -976,8 +1149,12 @@ impl Session<'_> {
                 *m = Mode::Ok;
             }
         }
+        let mut sites: Vec<usize> = std::mem::take(&mut self.also_armed);
         if let Kind::Site { site } = kind {
-            let s = &self.model.sites[*site as usize];
+            sites.push(*site as usize);
+        }
+        for k in sites {
+            let s = &self.model.sites[k];
             self.h
                 .runtime_mut()
                 .storage_mut()
@@ -991,7 +1168,13 @@ impl Session<'_> {
 
     /// The oracle for the moment a fault has just been reported and for the cycle requests
     /// that follow. `round` is 1 for the first fault of the runtime's life.
-    fn verify_fault(&mut self, round: usize, kind: &Kind, reported: &RuntimeError) -> Result<(), String> {
+    fn verify_fault(
+        &mut self,
+        round: usize,
+        kind: &Kind,
+        reported: &RuntimeError,
+        was_faulted: bool,
+    ) -> Result<(), String> {
         let model = self.model;
         let nd = self.nd;
         let tag = if round == 1 { String::new() } else { format!("[fault #{round} of this runtime] ") };
@@ -1008,7 +1191,9 @@ impl Session<'_> {
                 rt.last_fault()
             ));
         }
-        if rt.last_fault() != Some(reported) {
+        // A fault that hits a resource which is still faulted may or may not replace the
+        // recorded root cause (the property is silent): only "a fault is recorded" is asked.
+        if (was_faulted && rt.last_fault().is_none()) || (!was_faulted && rt.last_fault() != Some(reported)) {
             return Err(format!(
                 "{tag}after the fault {reported:?} was reported, last_fault() is {:?}",
                 rt.last_fault()
@@ -1130,7 +1315,11 @@ fn check_point_inner(model: &Model, point: &Point, probe: &mut Probe) -> Result<
         && point
             .more
             .iter()
-            .all(|n| kind_fits(&n.kind, n.deliver_fail, n.cycle, model));
+            .all(|n| {
+                kind_fits(&n.kind, n.deliver_fail, n.cycle, model)
+                    && n.also_site.map(|a| (a as usize) < model.sites.len()).unwrap_or(true)
+                    && (n.via != Via::Stay || matches!(n.kind, Kind::Watchdog | Kind::Sim))
+            });
     if !fits {
         probe.label("point_does_not_fit_program");
         return Ok(());
@@ -1147,6 +1336,8 @@ fn check_point_inner(model: &Model, point: &Point, probe: &mut Probe) -> Result<
         events: Vec::new(),
         read_mode: vec![Mode::Ok; nd],
         write_mode: vec![Mode::Ok; nd],
+        observer: None,
+        seen: Vec::new(),
     }));
     {
         let rt = h.runtime_mut();
@@ -1179,6 +1370,8 @@ fn check_point_inner(model: &Model, point: &Point, probe: &mut Probe) -> Result<
         model,
         nd,
         policy: point.policy,
+        trig: false,
+        also_armed: Vec::new(),
     };
 
     // ---- round 1: run up to the first fault ---------------------------------------------
@@ -1186,13 +1379,12 @@ fn check_point_inner(model: &Model, point: &Point, probe: &mut Probe) -> Result<
     let mut before_fault_cycle: Vec<i64> = Vec::new();
     let mut reported: Option<RuntimeError> = None;
     for c in 1..=point.cycle {
-        sess.h.advance_time(Duration::from_millis(STEP_MS));
         let faulting = in_cycle && c == point.cycle;
         if faulting {
             sess.arm(&point.kind, point.deliver_fail);
             before_fault_cycle = counters(sess.h.runtime(), model);
         }
-        let res = sess.h.runtime_mut().execute_cycle();
+        let res = sess.live_cycle();
         match (faulting, res) {
             (false, Ok(())) => {}
             (false, Err(e)) => {
@@ -1226,7 +1418,7 @@ fn check_point_inner(model: &Model, point: &Point, probe: &mut Probe) -> Result<
         ));
     }
     let at_fault = counters(sess.h.runtime(), model);
-    sess.verify_fault(1, &point.kind, &reported)?;
+    sess.verify_fault(1, &point.kind, &reported, false)?;
 
     // classification of the first fault (empirical: which other programs ran in the faulting cycle)
     let safe_due = matches!(point.kind, Kind::Watchdog) || point.policy == Pol::SafeHalt;
@@ -1247,7 +1439,7 @@ fn check_point_inner(model: &Model, point: &Point, probe: &mut Probe) -> Result<
         for (j, o) in model.sites.iter().enumerate() {
             if before_fault_cycle.get(j) != at_fault.get(j) && o.prog != fp {
                 other_prog = true;
-                if model.prog_task[o.prog] != model.prog_task[fp] {
+                if o.task != s.task {
                     other_task = true;
                 }
             }
@@ -1259,8 +1451,31 @@ fn check_point_inner(model: &Model, point: &Point, probe: &mut Probe) -> Result<
         if other_task {
             probe.label("class=not_first_task_of_cycle");
         }
-        if model.prog_task[fp].is_none() {
+        if s.task.is_none() {
             probe.label("class=background_program");
+        }
+        if let Some(t) = s.task {
+            if model.event_task[t] {
+                probe.label("class=site_in_event_task");
+            }
+            let task_bound = matches!(s.form, Form::TaskFb | Form::TaskFbFn);
+            let task_has_program = model.prog_task.iter().any(|pt| *pt == Some(t));
+            let task_has_fb = model
+                .sites
+                .iter()
+                .any(|o| o.task == Some(t) && matches!(o.form, Form::TaskFb | Form::TaskFbFn));
+            if task_bound && !task_has_program {
+                probe.label("class=site_in_fb_only_task");
+                nontrivial = true;
+            }
+            if task_bound && task_has_program {
+                probe.label("class=task_bound_fb_site_after_programs");
+                nontrivial = true;
+            }
+            if !task_bound && task_has_fb {
+                probe.label("class=program_site_in_task_that_also_runs_fb_instances");
+                nontrivial = true;
+            }
         }
     }
     if safe_due && model.safe.iter().any(|e| e.overlaps_output) {
@@ -1305,8 +1520,7 @@ fn check_point_inner(model: &Model, point: &Point, probe: &mut Probe) -> Result<
     if sess.h.runtime().faulted() {
         return Err(format!("faulted() is still true after restart({mode:?}) (after fault #{rounds_checked})"));
     }
-    sess.h.advance_time(Duration::from_millis(STEP_MS));
-    let res = sess.h.runtime_mut().execute_cycle();
+    let res = sess.live_cycle();
     if res == Err(RuntimeError::ResourceFaulted) {
         return Err(format!(
             "the first cycle after restart({mode:?}) (after fault #{rounds_checked}) is still refused with ResourceFaulted"
@@ -1347,8 +1561,10 @@ fn later_round(sess: &mut Session<'_>, round: usize, next: &Next, probe: &mut Pr
         Via::RestartWarm => "restart_warm",
         Via::RestartCold => "restart_cold",
         Via::ClearFault => "clear_fault",
+        Via::Stay => "no_recovery",
     };
     match next.via {
+        Via::Stay => {}
         Via::RestartWarm | Via::RestartCold => {
             let mode = if next.via == Via::RestartWarm { RestartMode::Warm } else { RestartMode::Cold };
             if let Err(e) = sess.h.runtime_mut().restart(mode) {
@@ -1368,10 +1584,24 @@ fn later_round(sess: &mut Session<'_>, round: usize, next: &Next, probe: &mut Pr
             }
         }
     }
-    // clean cycles before the next fault
-    for c in 1..next.cycle {
-        sess.h.advance_time(Duration::from_millis(STEP_MS));
-        match sess.h.runtime_mut().execute_cycle() {
+    // policy switches between the faults
+    if let Some(p) = next.set_policy {
+        sess.h.runtime_mut().set_fault_policy(pol_fault(p));
+        sess.policy = p;
+        probe.label(format!("round{round}_fault_policy_set"));
+    }
+    if let Some(w) = next.set_watchdog {
+        sess.h.runtime_mut().set_watchdog_policy(WatchdogPolicy {
+            enabled: true,
+            timeout: Duration::from_millis(1000),
+            action: pol_watchdog(w),
+        });
+        probe.label(format!("round{round}_watchdog_action_set"));
+    }
+    // clean cycles before the next fault (none when the resource stays faulted)
+    let clean = if next.via == Via::Stay { 1 } else { next.cycle };
+    for c in 1..clean {
+        match sess.live_cycle() {
             Ok(()) => {}
             Err(RuntimeError::ResourceFaulted) if next.via != Via::ClearFault => {
                 return Err(format!(
@@ -1383,6 +1613,15 @@ fn later_round(sess: &mut Session<'_>, round: usize, next: &Next, probe: &mut Pr
         }
     }
     sess.arm(&next.kind, next.deliver_fail);
+    if let (Kind::Site { .. }, Some(a)) = (&next.kind, next.also_site) {
+        let s = &model.sites[a as usize];
+        sess.h
+            .runtime_mut()
+            .storage_mut()
+            .set_global(s.ctl.as_str(), Value::DInt(s.fault_value));
+        sess.also_armed.push(a as usize);
+        probe.label(format!("round{round}_two_sites_armed"));
+    }
     let in_cycle = matches!(next.kind, Kind::Site { .. } | Kind::Read { .. } | Kind::Write { .. });
     let mut reported: Option<RuntimeError> = None;
     if in_cycle {
@@ -1390,8 +1629,7 @@ fn later_round(sess: &mut Session<'_>, round: usize, next: &Next, probe: &mut Pr
         let tries = if matches!(next.kind, Kind::Site { .. }) { 4 } else { 1 };
         for _ in 0..tries {
             let before = counters(sess.h.runtime(), model);
-            sess.h.advance_time(Duration::from_millis(STEP_MS));
-            match sess.h.runtime_mut().execute_cycle() {
+            match sess.live_cycle() {
                 Err(RuntimeError::ResourceFaulted) if next.via == Via::ClearFault && reported.is_none() => {
                     return Ok(RoundEnd::NoVerdict("refused_after_clear_fault"));
                 }
@@ -1435,7 +1673,7 @@ fn later_round(sess: &mut Session<'_>, round: usize, next: &Next, probe: &mut Pr
     probe.label(format!("round{round}_via={via}"));
     probe.label(format!("round{round}_kind={}", kind_label(&next.kind)));
     probe.label(format!("round{round}_error={}", error_label(&reported)));
-    sess.verify_fault(round, &next.kind, &reported)?;
+    sess.verify_fault(round, &next.kind, &reported, next.via == Via::Stay)?;
     Ok(RoundEnd::Checked)
 }
 
@@ -1453,6 +1691,13 @@ pub struct RunnerCase {
     pub watchdog: Pol,
     /// a driver whose write_outputs fails once the fault is due
     pub deliver_fail: Option<u32>,
+    /// Some(c): no runtime error and no watchdog; a `SimulationController` scripted with a
+    /// Fault disturbance raises `simulation_fault` before cycle 1 + c % 3
+    #[serde(default)]
+    pub sim: Option<u8>,
+    /// run the thread with `spawn_with_shared` (the second resource loop of scheduler.rs)
+    #[serde(default)]
+    pub shared: bool,
     /// replay files only, see `PointCase::expect_map`
     #[serde(default)]
     pub expect_map: Option<String>,
@@ -1488,21 +1733,32 @@ fn check_runner(case: &RunnerCase, probe: &mut Probe) -> Result<(), String> {
         }
     }
     let nd = model.ndrivers;
-    let site = case.site.map(|s| (s as u64 * model.sites.len() as u64 >> 32) as usize);
+    // which fault: a scripted simulation fault, a runtime error at a site, or a watchdog trip
+    let sim_cycle = case.sim.map(|c| 1 + (c % FAULT_CYCLES) as i64);
+    let site = if sim_cycle.is_some() {
+        None
+    } else {
+        case.site.map(|s| (s as u64 * model.sites.len() as u64 >> 32) as usize)
+    };
+    let watchdog_trip = sim_cycle.is_none() && site.is_none();
     let mut deliver_fail = case.deliver_fail.map(|d| (d as u64 * nd as u64 >> 32) as usize);
-    if let (Some(k), Some(_)) = (site, deliver_fail) {
-        // a failing delivery can only be armed from the start when the site faults in the
-        // very first cycle (otherwise an earlier publish would hit the failing driver)
-        match dry_run(&model) {
-            Ok(runs) if runs[0][k] => {}
-            Ok(_) => deliver_fail = None,
-            Err(msg) => {
-                trouble(format!("{msg}\n{}", model.source));
-                return Ok(());
+    match (site, sim_cycle, deliver_fail) {
+        (Some(k), _, Some(_)) => {
+            // a failing delivery can only be armed from the start when the site faults in the
+            // very first cycle (otherwise an earlier publish would hit the failing driver)
+            match dry_run(&model) {
+                Ok(runs) if runs[0][k] => {}
+                Ok(_) => deliver_fail = None,
+                Err(msg) => {
+                    trouble(format!("{msg}\n{}", model.source));
+                    return Ok(());
+                }
             }
         }
-    } else {
-        deliver_fail = None;
+        // the simulation fault of cycle 1 is raised before that cycle runs: nothing is
+        // published before it either
+        (None, Some(1), Some(_)) => {}
+        _ => deliver_fail = None,
     }
     let h = match TestHarness::from_source(&model.source) {
         Ok(h) => h,
@@ -1516,12 +1772,14 @@ fn check_runner(case: &RunnerCase, probe: &mut Probe) -> Result<(), String> {
         events: Vec::new(),
         read_mode: vec![Mode::Ok; nd],
         write_mode: vec![Mode::Ok; nd],
+        observer: None,
+        seen: Vec::new(),
     }));
     rt.set_fault_policy(pol_fault(case.policy));
     rt.set_watchdog_policy(WatchdogPolicy {
         // the scheduler compares wall-clock nanoseconds with the timeout: a negative
         // timeout trips after the first completed cycle whatever the machine does
-        enabled: site.is_none(),
+        enabled: watchdog_trip,
         timeout: Duration::from_nanos(-1),
         action: pol_watchdog(case.watchdog),
     });
@@ -1531,20 +1789,60 @@ fn check_runner(case: &RunnerCase, probe: &mut Probe) -> Result<(), String> {
     for d in 0..nd {
         rt.add_io_driver(format!("drv{d}"), Box::new(LogDriver { id: d, shared: shared.clone() }));
     }
+    // event tasks: one rising edge, in the first cycle
+    for t in &model.triggers {
+        rt.storage_mut().set_global(t.as_str(), Value::Bool(true));
+    }
     if let Some(k) = site {
         let s = &model.sites[k];
         rt.storage_mut().set_global(s.ctl.as_str(), Value::DInt(s.fault_value));
-        // with a runtime error in the first cycle that runs the site no publish happens
-        // before the fault, so the next write_outputs of this driver is the safe delivery
-        if let Some(d) = deliver_fail {
-            shared.lock().unwrap().write_mode[d] = Mode::FailAlways;
-        }
     }
+    // with a fault before the first publish the next write_outputs of this driver is the
+    // safe delivery
+    if let Some(d) = deliver_fail {
+        shared.lock().unwrap().write_mode[d] = Mode::FailAlways;
+    }
+    let shared_globals = if case.shared {
+        let names: Vec<smol_str::SmolStr> = vec![model.sites[0].counter.as_str().into()];
+        match SharedGlobals::from_runtime(names, &rt) {
+            Ok(g) => Some(g),
+            Err(e) => {
+                trouble(format!("SharedGlobals::from_runtime failed: {e:?}"));
+                return Ok(());
+            }
+        }
+    } else {
+        None
+    };
     let clock = StepClock { inner: Arc::new(Mutex::new((0, 0))) };
-    let runner = ResourceRunner::new(rt, clock.clone(), Duration::from_millis(STEP_MS));
-    let mut handle = runner
-        .spawn("c08-runner")
-        .map_err(|e| format!("cannot spawn the resource thread: {e:?}"))?;
+    let gate = Arc::new(StartGate::new());
+    let mut runner = ResourceRunner::new(rt, clock.clone(), Duration::from_millis(STEP_MS))
+        .with_start_gate(gate.clone());
+    if let Some(c) = sim_cycle {
+        runner = runner.with_simulation(SimulationController::new(SimulationConfig {
+            enabled: true,
+            seed: 0,
+            time_scale: 1,
+            couplings: Vec::new(),
+            disturbances: vec![SimulationDisturbance {
+                at: Duration::from_millis(STEP_MS * c),
+                kind: SimulationDisturbanceKind::Fault {
+                    message: "scripted by C08".into(),
+                },
+            }],
+        }));
+    }
+    let spawned = match shared_globals {
+        Some(g) => runner.spawn_with_shared("c08-runner", g),
+        None => runner.spawn("c08-runner"),
+    };
+    let mut handle = spawned.map_err(|e| format!("cannot spawn the resource thread: {e:?}"))?;
+    // every driver call records what an outside observer of the resource sees at that moment
+    {
+        let control = handle.control();
+        shared.lock().unwrap().observer = Some(Box::new(move || (control.state(), control.last_error())));
+    }
+    gate.open();
     // wait until the thread reports Faulted, or the deterministic cycle bound is exceeded
     let mut gave_up = false;
     let started = std::time::Instant::now();
@@ -1556,7 +1854,7 @@ fn check_runner(case: &RunnerCase, probe: &mut Probe) -> Result<(), String> {
         if cycles > RUNNER_MAX_CYCLES {
             break;
         }
-        if started.elapsed() > std::time::Duration::from_secs(20) {
+        if started.elapsed() > std::time::Duration::from_secs(120) {
             gave_up = true;
             break;
         }
@@ -1566,6 +1864,7 @@ fn check_runner(case: &RunnerCase, probe: &mut Probe) -> Result<(), String> {
     handle.stop();
     let _ = handle.join();
     let last_error = handle.last_error();
+    shared.lock().unwrap().observer = None;
     if gave_up {
         // infrastructure (machine stalled), never a verdict
         probe.label("runner=wall_clock_guard_hit");
@@ -1573,7 +1872,8 @@ fn check_runner(case: &RunnerCase, probe: &mut Probe) -> Result<(), String> {
     }
     let ctx_text = || {
         format!(
-            "\n--- runner case site={site:?} policy={:?} watchdog={:?} deliver_fail={deliver_fail:?}; {} driver(s); safe-state map {:?}; program:\n{}",
+            "\n--- runner case site={site:?} simulation_fault_cycle={sim_cycle:?} shared_globals={} policy={:?} watchdog={:?} deliver_fail={deliver_fail:?}; {} driver(s); safe-state map {:?}; program:\n{}",
+            case.shared,
             case.policy,
             case.watchdog,
             nd,
@@ -1590,19 +1890,41 @@ fn check_runner(case: &RunnerCase, probe: &mut Probe) -> Result<(), String> {
     let Some(err) = last_error else {
         return Err(format!("resource state is Faulted but last_error() is None{}", ctx_text()));
     };
-    match (&site, &err) {
-        (None, RuntimeError::WatchdogTimeout) => {}
-        (None, other) => {
+    match (&err, watchdog_trip, sim_cycle.is_some()) {
+        (RuntimeError::WatchdogTimeout, true, _) => {}
+        (other, true, _) => {
             return Err(format!("watchdog trip expected, the resource thread reported {other:?}{}", ctx_text()));
         }
-        (Some(_), RuntimeError::WatchdogTimeout | RuntimeError::ResourceFaulted | RuntimeError::IoDriver(_)) => {
+        (RuntimeError::SimulationFault(_), _, true) => {}
+        (other, _, true) => {
+            return Err(format!("scripted simulation fault expected, the resource thread reported {other:?}{}", ctx_text()));
+        }
+        (RuntimeError::WatchdogTimeout | RuntimeError::ResourceFaulted | RuntimeError::IoDriver(_), _, _) => {
             return Err(format!("runtime error expected, the resource thread reported {err:?}{}", ctx_text()));
         }
         _ => {}
     }
-    let safe_due = site.is_none() || case.policy == Pol::SafeHalt;
+    let s = shared.lock().unwrap();
+    // "delivered to every driver BEFORE the fault is reported": whenever a driver is handed an
+    // image (or polled for inputs) nobody outside may be able to see the fault yet, and once
+    // it is visible no driver is called any more
+    for (idx, seen_state, seen_error) in &s.seen {
+        if *seen_state == ResourceState::Faulted || seen_error.is_some() {
+            return Err(format!(
+                "driver call {:?} (event {idx} of {}) happened while the resource already reported state {seen_state:?} / last_error {seen_error:?}: the fault {err:?} was visible before the drivers had received the image{}",
+                s.events[*idx],
+                s.events.len(),
+                ctx_text()
+            ));
+        }
+    }
+    if s.seen.len() != s.events.len() {
+        drop(s);
+        trouble("the state observer missed driver calls".into());
+        return Ok(());
+    }
+    let safe_due = watchdog_trip || case.policy == Pol::SafeHalt;
     if safe_due && !model.safe.is_empty() {
-        let s = shared.lock().unwrap();
         for d in 0..nd {
             let last = s.events.iter().rev().find_map(|ev| match ev {
                 Event::Write { driver, payload } if *driver == d => Some(payload),
@@ -1627,11 +1949,25 @@ fn check_runner(case: &RunnerCase, probe: &mut Probe) -> Result<(), String> {
             }
         }
     }
-    probe.label(if site.is_some() { "runner=runtime_error" } else { "runner=watchdog_trip" });
+    probe.label(if watchdog_trip {
+        "runner=watchdog_trip"
+    } else if sim_cycle.is_some() {
+        "runner=simulation_fault"
+    } else {
+        "runner=runtime_error"
+    });
+    probe.label(if case.shared { "runner_loop=spawn_with_shared" } else { "runner_loop=spawn" });
     probe.label(if safe_due { "runner_safe_state=due" } else { "runner_safe_state=not_due" });
+    probe.label(format!("runner_action={:?}", case.watchdog));
     if nd >= 2 || model.safe.iter().any(|e| e.overlaps_output) {
         let mut key = model.source.as_bytes().to_vec();
-        key.extend_from_slice(format!("runner{:?}{site:?}{:?}{:?}{deliver_fail:?}", model.safe, case.policy, case.watchdog).as_bytes());
+        key.extend_from_slice(
+            format!(
+                "runner{:?}{site:?}{sim_cycle:?}{}{:?}{:?}{deliver_fail:?}",
+                model.safe, case.shared, case.policy, case.watchdog
+            )
+            .as_bytes(),
+        );
         probe.nontrivial(&key);
     }
     Ok(())
@@ -1698,20 +2034,24 @@ fn run(ctx: &mut RunCtx) {
     let pol = || prop_oneof![Just(Pol::Halt), Just(Pol::SafeHalt)];
     let runner_strategy = (
         tape_strategy(400),
-        proptest::option::weighted(0.7, any::<u32>()),
+        proptest::option::weighted(0.6, any::<u32>()),
         pol(),
         pol(),
         proptest::option::weighted(0.4, any::<u32>()),
+        proptest::option::weighted(0.25, 0u8..3),
+        any::<bool>(),
     )
-        .prop_map(|(tape, site, policy, watchdog, deliver_fail)| RunnerCase {
+        .prop_map(|(tape, site, policy, watchdog, deliver_fail, sim, shared)| RunnerCase {
             tape,
             site,
             policy,
             watchdog,
             deliver_fail,
+            sim,
+            shared,
             expect_map: None,
         });
-    ctx.search("runner", runner_strategy, ctx.tier.pick(400, 8000), check_runner);
+    ctx.search("runner", runner_strategy, ctx.tier.pick(600, 12000), check_runner);
     flush_trouble(ctx);
     if ctx.only_replay.is_some() {
         return;
